@@ -1,6 +1,9 @@
 import NeoFS.Gen.Handlers
 import NeoFS.Lemmas.Handlers
 import NeoFS.Model.CtlAuth
+import NeoFS.Model.CtlConc
+import NeoFS.Lemmas.CtlConc
+import NeoFS.Gen.CtlShared
 /-!
 # C32 — control-plane requests run only when signed by an authorised key
 
@@ -63,5 +66,120 @@ theorem isValid_iff (allowed : List Nat) (r : Req) :
 example : (Gen.controlHandlers ++ Gen.irControlHandlers).all (fun h => reachesEffect [] h.2) = true := by decide +kernel
 example : checker ctlPolicy (.seq (.eff .ctl) (.chk .ctlSig)) = false := by decide
 example : CtlAuth.isValidRequest [1] { hasSig := true, key := 2, sigValid := true } = .disallowedKey := by decide
+
+/-! ## One server, many requests in flight (`Model/CtlConc.lean`, op `crace`)
+
+The verdict of a control request is a function of (body, signature, configured keys) — whatever other requests the
+same server is serving and however their steps interleave. -/
+
+section Concurrent
+open NeoFS.CtlAuth NeoFS.CtlConc
+
+/-- **C32, concurrent part.** One server, any set of requests in flight, ANY interleaving of their atomic steps:
+whenever a request has its verdict, it is the verdict `isValidRequest` gives to that request alone. -/
+theorem concurrent_verdicts_are_sequential (allowed : List Nat) (reqs : Nat → CReq) (sch : List Nat) (j : Nat)
+    (v : Verdict) (h : ((run .fresh allowed sch (init reqs)).ts j).pc = .done v) :
+    v = isValidRequest allowed (seqView (reqs j)) := by
+  rw [run_fresh_thread] at h
+  have hi := iter_stepT_inv allowed (sch.count j) ((init reqs).ts j) (by simp [init, ThreadInv])
+  have hinv := hi.1
+  unfold ThreadInv at hinv
+  rw [h] at hinv
+  have hreq := hi.2
+  simp only [init] at hreq hinv
+  rw [hreq] at hinv
+  exact hinv
+
+/-- Every request the schedule lets make its five steps is decided, with the sequential verdict. -/
+theorem scheduled_request_is_decided (allowed : List Nat) (reqs : Nat → CReq) (sch : List Nat) (j : Nat)
+    (h : 5 ≤ sch.count j) :
+    ((run .fresh allowed sch (init reqs)).ts j).pc = .done (isValidRequest allowed (seqView (reqs j))) := by
+  obtain ⟨v, hv⟩ := five_steps_decide allowed (reqs j)
+  have hpc : ((run .fresh allowed sch (init reqs)).ts j).pc = .done v := by
+    rw [run_fresh_thread]
+    obtain ⟨d, hd⟩ := Nat.exists_eq_add_of_le h
+    have : iter (stepT allowed) (sch.count j) ((init reqs).ts j) =
+        iter (stepT allowed) d (iter (stepT allowed) 5 ((init reqs).ts j)) := by
+      rw [hd, iter_add]
+    rw [this, iter_stepT_done allowed d _ v (by simpa [init] using hv)]
+    simpa [init] using hv
+  rw [hpc, concurrent_verdicts_are_sequential allowed reqs sch j v hpc]
+
+/-- A request that carries a signature made over ANOTHER body is never accepted, whatever runs beside it — in
+particular beside replays of the request the signature was copied from. -/
+theorem forged_request_never_accepted (allowed : List Nat) (reqs : Nat → CReq) (sch : List Nat) (j k k' x : Nat)
+    (hs : (reqs j).sig = some (k, .made k' x)) (hx : x ≠ (reqs j).body) :
+    ((run .fresh allowed sch (init reqs)).ts j).pc ≠ .done .ok := by
+  intro h
+  have := concurrent_verdicts_are_sequential allowed reqs sch j .ok h
+  have hv := ((isValid_iff allowed (seqView (reqs j))).mp this.symm).2.2.2.2
+  simp [seqView, hs, verify] at hv
+  exact hx hv.2
+
+/-- A genuinely signed request of a configured key is accepted, whatever runs beside it. -/
+theorem genuine_request_accepted (allowed : List Nat) (reqs : Nat → CReq) (sch : List Nat) (j k : Nat)
+    (hs : (reqs j).sig = some (k, .made k (reqs j).body)) (hk : k ∈ allowed)
+    (hm : (reqs j).marshals = true) (hd : (reqs j).keyDecodes = true) (h : 5 ≤ sch.count j) :
+    ((run .fresh allowed sch (init reqs)).ts j).pc = .done .ok := by
+  rw [scheduled_request_is_decided allowed reqs sch j h]
+  congr 1
+  exact (isValid_iff allowed (seqView (reqs j))).mpr (by simp [seqView, hs, verify, hk, hm, hd])
+
+/-- The schedule the engine forces (all requests marshal, then all verify) is one of these interleavings: the
+driver's answer for op `crace` is the list of sequential verdicts. -/
+theorem barrier_verdicts_are_sequential (allowed : List Nat) (l : List CReq) :
+    barrierVerdicts .fresh allowed l = l.map (fun r => some (isValidRequest allowed (seqView r))) := by
+  apply List.ext_getElem
+  · simp [barrierVerdicts]
+  · intro i h1 h2
+    have hi : i < l.length := by simpa [barrierVerdicts] using h1
+    have hc : 5 ≤ (barrierSchedule l.length).count i := by
+      have hpos : 0 < (List.range l.length).count i := List.count_pos_iff.mpr (List.mem_range.mpr hi)
+      simp only [barrierSchedule, List.count_append]
+      omega
+    have hd := scheduled_request_is_decided allowed (reqsOfList l) (barrierSchedule l.length) i hc
+    have hr : reqsOfList l i = l[i] := by simp [reqsOfList, hi]
+    simp [barrierVerdicts, verdictOf, hd, hr]
+
+/-- **Regenerated tie of the model's step discipline.** In both control servers the authorisation path
+(`isValidRequest` and whatever function of its package it calls) assigns, slices, takes the address of or hands out
+NO field of the server and NO package-level variable, and no method of the server assigns a field the path reads:
+all state that outlives a request is only read there — the discipline `fresh` of the model. -/
+theorem auth_path_shares_nothing_mutable :
+    Gen.CtlShared.storageNode.sharesNothingMutable = true ∧ Gen.CtlShared.innerRing.sharesNothingMutable = true ∧
+    Gen.CtlShared.storageNode.mode = .fresh ∧ Gen.CtlShared.innerRing.mode = .fresh := by decide
+
+/-- non-vacuity: a path that marshals into a buffer kept in the server is told apart -/
+example : AuthPathUse.mode
+    { funcs := ["Server.isValidRequest"]
+      fieldsRead := ["allowedKeys", "buf"]
+      fieldsWritten := ["buf"]
+      fieldsAliased := ["buf"]
+      pkgVarsRead := []
+      pkgVarsWritten := []
+      serverMethodsWritingReadFields := [] } = .scratch := by decide
+
+/-- What the property excludes: were the signed data marshalled into ONE buffer owned by the server and read by the
+verification after the marshalling step is over, a request with a signature copied from a genuine request (another
+body) would be accepted when it runs beside a replay of the genuine one. Request 0 is the forged one, request 1
+the genuine one; schedule: both scan and decide, 0 marshals, 1 marshals (over it), 0 decodes and verifies. -/
+theorem scratch_buffer_allows_forgery :
+    ∃ (sch : List Nat) (reqs : Nat → CReq),
+      isValidRequest [1] (seqView (reqs 0)) = .invalidSignature ∧
+      ((run .scratch [1] sch (init reqs)).ts 0).pc = .done .ok :=
+  ⟨[0, 1, 0, 1, 0, 1, 0, 0], reqsOfList [{ body := 2, sig := some (1, .made 1 1) }, { body := 1, sig := some (1, .made 1 1) }],
+    by decide, by decide⟩
+
+/-- the same two requests under the same schedule in the code as it is -/
+example : ((run .fresh [1] [0, 1, 0, 1, 0, 1, 0, 0] (init (reqsOfList
+    [{ body := 2, sig := some (1, .made 1 1) }, { body := 1, sig := some (1, .made 1 1) }]))).ts 0).pc
+    = .done .invalidSignature := by decide
+example : barrierVerdicts .fresh [1, 3] ((["g1", "g2", "fo", "wk", "ns", "bs"].filterMap raceReq)) =
+    [some .ok, some .ok, some .invalidSignature, some .disallowedKey, some .missingSignature, some .invalidSignature] := by
+  decide
+/-- under the barrier schedule the scratch-buffer discipline gives the verdict of whoever marshalled last -/
+example : barrierVerdicts .scratch [1, 3] ((["fo", "g1"].filterMap raceReq)) = [some .ok, some .ok] := by decide
+
+end Concurrent
 
 end NeoFS.C32
